@@ -425,7 +425,8 @@ pub fn upload_case_strategy(max_size: usize) -> BoxedStrategy<UploadCase> {
             any::<u16>(),
         );
         (
-            proptest::collection::vec(file, 0..6),
+            // mostly up to five payload files; one case in seven announces 9 .. 21 (more than a handful of open handles)
+            prop_oneof![6 => proptest::collection::vec(file.clone(), 0..6), 1 => proptest::collection::vec(file, 9..22)],
             Just(block),
             0u32..=999_999,
             proptest::collection::vec(req, 0..30),
@@ -450,12 +451,16 @@ pub fn upload_case_strategy(max_size: usize) -> BoxedStrategy<UploadCase> {
                     // the size on disk is that of the last spec for this id
                     let size = present.iter().rev().find(|p| p.0 == *id).unwrap().1;
                     let mut off = 0usize;
+                    // many files: the first blocks of each only, so that the script gets round to all of them
+                    let (cap, per_file) = if order.len() >= 9 { (80, 3) } else { (48, usize::MAX) };
+                    let mut n = 0usize;
                     loop {
-                        if requests.len() >= 48 {
+                        if requests.len() >= cap {
                             break 'files;
                         }
                         requests.push(Req { id: *id, offset: off as u32, malformed: String::new() });
-                        if off >= size {
+                        n += 1;
+                        if off >= size || n >= per_file {
                             break;
                         }
                         off += block as usize;
@@ -513,6 +518,14 @@ pub fn run(tier: Tier) -> i32 {
             }
             if crosses_eof {
                 st.class("block-crosses-end-of-file");
+            }
+            {
+                let mut ids: Vec<u8> = c.requests.iter().filter(|r| present.iter().any(|(id, _)| *id == r.id)).map(|r| r.id).collect();
+                ids.sort();
+                ids.dedup();
+                if ids.len() >= 9 {
+                    st.class("requests-for->=9-distinct-files");
+                }
             }
             if c.requests.len() >= 3 && c.requests.windows(2).filter(|w| w[0].id == w[1].id && w[1].offset == w[0].offset.wrapping_add(c.block)).count() >= 2 {
                 st.class("front-to-back-run");
